@@ -197,7 +197,8 @@ func genCoreOp(t *simrt.Tape, rows, cols int, pending bool) (string, string) {
 func genCoreOpAlt(t *simrt.Tape, rows, cols int, pending, onAlt bool) (string, string) {
 	k := t.Draw(34)
 	if pending {
-		k = []int{0, 0, 1, 4, 4}[t.Draw(5)]
+		// printing, CR and absolute positioning (CUP/HVP, CHA, VPA)
+		k = []int{0, 0, 1, 4, 4, 12, 13}[t.Draw(7)]
 	}
 	switch k {
 	case 0, 2, 3:
@@ -290,7 +291,7 @@ func isPendingSafe(b string) bool {
 	if b == "\r" || !strings.HasPrefix(b, "\x1b") {
 		return true
 	}
-	return strings.HasSuffix(b, "H") || strings.HasSuffix(b, "f")
+	return strings.HasSuffix(b, "H") || strings.HasSuffix(b, "f") || (strings.HasPrefix(b, "\x1b[") && (strings.HasSuffix(b, "G") || strings.HasSuffix(b, "d")))
 }
 
 // enumOps is the fixed list of concrete operations the enumeration phase pairs up.
